@@ -71,7 +71,10 @@ Record c13case := {
   i_accepted : bool; i_error : option string; i_current_pilot : Q; i_charge_calls : list (list Q);
   i_max : Q; i_min : Q; i_allow : list Q; i_is_cont : bool;
   (* plugin into this station of a second EV *)
-  i_plugin_err : option string; i_ev_after_plugin : option Z
+  i_plugin_err : option string; i_ev_after_plugin : option Z;
+  (* a second pilot sent to the same station object afterwards (None: not sent) *)
+  c_pilot2 : option Q;
+  i_accepted2 : bool; i_error2 : option string; i_current_pilot2 : Q; i_charge_calls2 : list (list Q)
 }.
 
 Definition Qlist_eqb := list_eqb Qeqb.
@@ -89,4 +92,15 @@ Definition check_c13 (c : c13case) : bool :=
   && Qlist_eqb (allowable_pilot_signals (c_kind c)) (i_allow c)
   && Bool.eqb (is_continuous (c_kind c)) (i_is_cont c)
   && ostr_eqb (errS pl) (i_plugin_err c)
-  && option_eqb Z.eqb (BaseEVSE_plugin__ev (stateS pl)) (i_ev_after_plugin c).
+  && option_eqb Z.eqb (BaseEVSE_plugin__ev (stateS pl)) (i_ev_after_plugin c)
+  && match c_pilot2 c with
+     | None => true
+     | Some p2 =>
+         (* the station keeps the pilot the first call left behind; only the second call's own
+            EV.charge invocations are recorded in i_charge_calls2 *)
+         let o2 := set_pilot (c_kind c) (sp_current_pilot o) (c_ev c) p2 (c_voltage c) (c_period c) in
+         Bool.eqb (sp_accepted o2) (i_accepted2 c)
+         && ostr_eqb (sp_error o2) (i_error2 c)
+         && Qeqb (sp_current_pilot o2) (i_current_pilot2 c)
+         && list_eqb Qlist_eqb (sp_charge_calls o2) (i_charge_calls2 c)
+     end.
